@@ -10,10 +10,15 @@
                code x version x phrase x header list x body x spelling style x position of Content-Length
      chunk     conforming server, chunked coding: code x header list x body x EVERY composition of
                the body into chunks x hex spelling x position of Transfer-Encoding
-     bigchunk  chunk sizes 10..MaxBig (hex digits a-f / A-F, two-digit sizes): one or two chunks *)
+     bigchunk  chunk sizes 10..MaxBig (hex digits a-f / A-F, two-digit sizes): one or two chunks
+     many      (generation only, ManyMode) api responses with 30..48, 64, 100 header fields of which k = 2..10
+               are Set-Cookie and k share the custom name x-trace (plus a repeated Link), placed among
+               differently named fields in three patterns - the sizes at which a sort that is not stable
+               starts to permute same-named fields *)
 EXTENDS HttpResp, Json
 
-CONSTANTS Families, CodeMode, HdrK, MaxHdrs, MaxBody, BodyMode, StyleMode, PhraseMode, MaxBig
+CONSTANTS Families, CodeMode, HdrK, MaxHdrs, MaxBody, BodyMode, StyleMode, PhraseMode, MaxBig,
+          ManyMode     \* "none" | "quick" | "all": the many-headers family (generation only)
 
 
 HdrCat == <<
@@ -95,7 +100,31 @@ InitFamBig ==
          IN /\ InitSrv(Resp("HTTP/1.1", 200, <<CL(b)>>, b), head \o Concat(frames))
             /\ meta = [k |-> "p", head |-> head, frames |-> frames]
 
-MCInit == InitFamApi \/ InitFamCl \/ InitFamChunk \/ InitFamBig
+\* many header fields.  Field i of n: A = Set-Cookie, B = x-trace at the positions the pattern says,
+\* every fifth other field a (repeated) Link, the rest pairwise different custom names
+ManyCounts == IF ManyMode = "all" THEN (30..48) \cup {64, 100}
+              ELSE IF ManyMode = "quick" THEN {30, 32, 33, 34, 36, 40, 44, 48, 64} ELSE {}
+ManyShares == IF ManyMode = "all" THEN 2..10 ELSE {2, 5, 10}
+ManyKind(n, k, pat, i) ==
+  LET step == n \div k
+      m    == (n - 2 * k) \div 2
+  IN CASE pat = 1 -> IF i % step = 0 /\ i \div step <= k THEN "A" ELSE IF i % step = 1 /\ i \div step < k THEN "B" ELSE "o"
+       [] pat = 2 -> IF i > n - k THEN "A" ELSE IF i <= k THEN "B" ELSE "o"
+       [] pat = 3 -> IF i > m /\ i <= m + 2 * k THEN (IF (i - m) % 2 = 1 THEN "A" ELSE "B") ELSE "o"
+ManyHeaders(n, k, pat) ==
+  [i \in 1..n |->
+     LET kind == ManyKind(n, k, pat, i) IN
+     IF kind = "A" THEN Hdr("Set-Cookie", "c" \o Dec(i) \o "=v" \o Dec(i))
+     ELSE IF kind = "B" THEN Hdr("x-trace", "hop-" \o Dec(i))
+     ELSE IF i % 5 = 0 THEN Hdr("Link", "</r" \o Dec(i) \o ">; rel=preload")
+     ELSE Hdr("x-u" \o Dec(i), "v" \o Dec(i))]
+InitFamMany ==
+  /\ ManyMode # "none"
+  /\ \E n \in ManyCounts, k \in ManyShares, pat \in 1..3 :
+       /\ InitApi(Resp("HTTP/1.1", 200, ManyHeaders(n, k, pat) \o <<CL("a\n")>>, "a\n"))
+       /\ meta = [k |-> "s", head |-> "", frames |-> <<>>]
+
+MCInit == InitFamApi \/ InitFamCl \/ InitFamChunk \/ InitFamBig \/ InitFamMany
 MCSpec == MCInit /\ [][Next]_vars /\ WF_vars(Next)
 
 \* the constant-level lemma, evaluated on every api response of the bound
@@ -139,6 +168,10 @@ CookieInv ==
      /\ PrintT(ToJson([k |-> "c", name |-> c.name, value |-> c.value, attrs |-> c.attrs, expires |-> c.expires,
                        maxage |-> c.maxage, domain |-> c.domain, path |-> c.path, samesite |-> c.samesite,
                        exp |-> v, pair |-> c.name \o "=" \o c.value, avs |-> CookieAvs(c)]))
+
+\* cookies and the many-headers family in one generation run
+ExtraInit == CookieInit \/ InitFamMany
+ExtraInv == IF meta.k = "c" THEN CookieInv ELSE GenVector
 
 \* the status table, for the harness to compare with every variant of StatusCode
 ASSUME PrintT(ToJson([k |-> "codes", rows |-> StatusRows]))
